@@ -12,7 +12,7 @@ RULE = (
     'random programs of 1-8 concurrent activities built from timed waits (delay, ==, >=, <, '
     'instant, eternity), nested Scope/until blocks with time notifications and children started '
     'now/after d/at t; dates from a colliding dyadic grid incl. zero, past, equal and infinite '
-    'dates; start times {-5,0,0.5,7,1e6}; every logged resume time is compared with the '
+    'dates; start times {-5,0,0.5,7,1e6,2**53,1e17} (the last two make small delays vanish in float rounding); every logged resume time is compared with the '
     'arithmetic clock model and kernel clock/due-time monitors run on every activation; '
     'non-trivial = >= 2 activities and >= 3 distinct virtual times; distinct = activation trace'
 )
@@ -32,7 +32,7 @@ REQUIRED_STATS = ['waits_checked', 'due_checked', 'activations']
 
 GRID = [0, 0, 0.125, 0.25, 0.5, 0.5, 1, 1, 1.5, 2, 2, 3, 5]
 DATES = [-1, 0, 0, 0.5, 1, 1, 1.5, 2, 2, 2.5, 3, 4, 5, 8]
-STARTS = [0, 0, 0, -5, 0.5, 7, 1e6]
+STARTS = [0, 0, 0, -5, 0.5, 7, 1e6, 2.0 ** 53, 1e17]
 
 
 def n_cases(tier):
